@@ -7,7 +7,7 @@ GATES = ['pyclifford/circuit.py::CliffordGate.forward#generator_global', 'pyclif
          'pyclifford/circuit.py::CliffordGate.forward#map_global', 'pyclifford/circuit.py::CliffordGate.forward#generator_global_state',
          'pyclifford/circuit.py::CliffordGate.backward#generator_global_state', 'pyclifford/circuit.py::CliffordGate.forward#map_global_state']
 LOCAL_GATES = ['pyclifford/circuit.py::CliffordGate.forward#generator_local', 'pyclifford/circuit.py::CliffordGate.backward#generator_local',
-               'pyclifford/circuit.py::CliffordGate.forward#map_local']
+               'pyclifford/circuit.py::CliffordGate.forward#map_local', 'pyclifford/circuit.py::CliffordGate.backward#map_local']
 LOCAL_STATE = ['pyclifford/paulialg.py::PauliList.rotate_by#mask_state', 'pyclifford/circuit.py::CliffordGate.forward#generator_local_state',
                'pyclifford/circuit.py::CliffordGate.backward#generator_local_state', 'pyclifford/paulialg.py::PauliList.transform_by#mask_state',
                'pyclifford/circuit.py::CliffordGate.forward#map_local_state']
@@ -16,7 +16,7 @@ CLASS_LAYER = [PA + 'Pauli.__matmul__#Pauli', PA + 'Pauli.__neg__', PA + 'Pauli.
                PA + 'PauliList.rotate_by#nomask', PA + 'PauliList.transform_by#nomask', PA + 'PauliList.rotate_by#mask', PA + 'PauliList.transform_by#mask', ST + 'CliffordMap.copy', ST + 'CliffordMap.compose',
                ST + 'CliffordMap.to_state#r', ST + 'CliffordMap.to_state#none', ST + 'StabilizerState.copy', ST + 'StabilizerState.to_map',
                ST + 'StabilizerState.expect#list', ST + 'identity_map', ST + 'StabilizerState.measure#list', ST + 'StabilizerState.postselect',
-               ST + 'StabilizerState.expect#state', ST + 'CliffordMap.inverse', ST + 'clifford_rotation_map', ST + 'zero_state', ST + 'maximally_mixed_state', ST + 'StabilizerState.entropy#mask', ST + 'StabilizerState.entropy#qubits', ST + 'random_pauli_map', PA + 'Pauli.rotate_by#nomask', PA + 'Pauli.transform_by#nomask', 'pyclifford/circuit.py::MeasureLayer.forward', PA + 'PauliList.__neg__', PA + 'PauliList.rotate_by#state', PA + 'PauliList.transform_by#state', PA + 'PauliPolynomial.__matmul__#poly', PA + 'Pauli.__matmul__#Monomial',
+               ST + 'StabilizerState.expect#state', ST + 'CliffordMap.inverse', ST + 'clifford_rotation_map', ST + 'zero_state', ST + 'maximally_mixed_state', ST + 'StabilizerState.entropy#mask', ST + 'StabilizerState.entropy#qubits', ST + 'random_pauli_map', 'pyclifford/circuit.py::clifford_rotation_gate#noqubits', PA + 'Pauli.rotate_by#nomask', PA + 'Pauli.transform_by#nomask', 'pyclifford/circuit.py::MeasureLayer.forward', PA + 'PauliList.__neg__', PA + 'PauliList.rotate_by#state', PA + 'PauliList.transform_by#state', PA + 'PauliPolynomial.__matmul__#poly', PA + 'Pauli.__matmul__#Monomial',
                'pyclifford/circuit.py::CliffordGate.forward#generator_global', 'pyclifford/circuit.py::CliffordGate.backward#generator_global',
                'pyclifford/circuit.py::CliffordGate.forward#map_global'] + GATES[3:] + LOCAL_GATES + LOCAL_STATE + \
               [PA + '%s.__rmul__#%s' % (c, t) for c in ('Pauli', 'PauliList') for t in ('1', 'i', 'm1', 'mi')]
@@ -26,7 +26,7 @@ MEASURE_LEMMAS = ['ordp_parity', 'xzpartial_full', 'selacq_map', 'selacq_image',
                   'ipowsum_ext', 'symplectic_complete']
 KERNELS = [U + f for f in ('batch_dot', 'random_pair', 'pauli_diagonalize1', 'stabilizer_measure', 'stabilizer_project', 'stabilizer_postselection', 'stabilizer_projection_trace', 'acq', 'ipow', 'p0', 'ps0', 'acq_mat', 'pauli_tokenize', 'pauli_combine', 'pauli_transform',
                            'clifford_rotate', 'clifford_rotate_signless', 'map_to_state', 'state_to_map', 'front',
-                           'pauli_is_onsite', 'stabilizer_expect', 'z2inv', 'z2rank', 'mask', 'stabilizer_entropy', 'random_pauli')]
+                           'pauli_is_onsite', 'stabilizer_expect', 'z2inv', 'z2rank', 'mask', 'stabilizer_entropy', 'random_pauli', 'condense')]
 
 
 def _b():
@@ -70,7 +70,7 @@ def C03(run):
 def C04(run):
     run.deductive(keys=[U + 'pauli_transform', U + 'pauli_combine', U + 'ps0', U + 'z2inv', ST + 'CliffordMap.compose', ST + 'CliffordMap.inverse', ST + 'CliffordMap.copy', ST + 'identity_map'],
                   lemmas=['dot_shift', 'dot_add', 'dot_unit', 'ordg_is_dot', 'mul_assoc'])
-    run.bounded_check('c04_group', _b().c04_group, Nmax=q(run, 2, 3), count=q(run, 20, 250))
+    run.bounded_check('c04_group', _b().c04_group, Nmax=q(run, 2, 3), count=q(run, 20, 250), big=q(run, 60, 3000))
     return 'other', ('deductive (all N): z2inv returns a GF(2) inverse (Gauss-Jordan augmented-matrix invariant  left == right . mat), '
                      'CliffordMap.inverse() composed with the map is the identity map (strings and phases, in the vocabulary of '
                      "compose's postcondition), compose = pauli_transform with its functional contract; bounded: two-sidedness, "
@@ -131,9 +131,13 @@ def C09(run):
 
 
 def C10(run):
-    run.deductive(keys=[GATES[0], GATES[1], GATES[4], U + 'clifford_rotate', PA + 'Pauli.__neg__'] + LOCAL_GATES[:2], lemmas=['rotate_twice'] + MASK_LEMMAS)
+    run.deductive(keys=[GATES[0], GATES[1], GATES[4], U + 'clifford_rotate', PA + 'Pauli.__neg__', ST + 'CliffordMap.inverse', U + 'z2inv'] + LOCAL_GATES, lemmas=['rotate_twice', 'dot_shift', 'dot_add', 'dot_unit', 'ordg_is_dot'] + MASK_LEMMAS)
     run.bounded_check('c10_inverse', _b().c10_inverse, Nmax=3, programs=q(run, 40, 1500), maxlen=q(run, 5, 9))
-    return 'other', 'bounded: backward/forward round trips of gates, layers and circuits (compiled or not) on Pauli lists and states with rank'
+    return 'other', ('deductive (all N, all qubit tuples): backward of a generator gate is the rotation by minus the generator - which undoes the '
+                     'rotation (lemma rotate_twice: the two product phases cancel) - and backward of a map gate is the (masked) transformation by '
+                     'the GF(2)-inverse table with the phases that make inverse-then-map the identity (CliffordMap.inverse over z2inv); '
+                     'bounded: that the inverse is two-sided, and backward/forward round trips of gates, layers and circuits (compiled or not, '
+                     'extended after compilation) on Pauli lists and states with rank')
 
 
 def C11(run):
@@ -195,9 +199,14 @@ def C17(run):
 
 
 def C18(run):
-    run.deductive(keys=[U + 'front', U + 'pauli_is_onsite', U + 'pauli_diagonalize1'], lemmas=['acq_diff2', 'onsite_flat', 'acq_antisym'])
+    run.deductive(keys=[U + 'front', U + 'pauli_is_onsite', U + 'pauli_diagonalize1', U + 'condense', 'pyclifford/circuit.py::clifford_rotation_gate#noqubits',
+                        U + 'mask', PA + 'PauliList.rotate_by#mask'] + LOCAL_GATES[:2],
+                  lemmas=['acq_diff2', 'onsite_flat', 'acq_antisym', 'mask_ext'] + MASK_LEMMAS)
     run.bounded_check('c18_diagonalize', _b().c18_diagonalize, Nmax=q(run, 3, 4), hams=q(run, 30, 800), big=q(run, 150, 4000))
-    return 'other', ('deductive: front / pauli_is_onsite; bounded: diagonalize for all strings, signs, targets, causal on/off (N <= 3/4), '
+    return 'other', ('deductive (all N): pauli_diagonalize1 returns generators that rotate the string to Z on the target qubit (each anticommutes with '
+                     'the current string); clifford_rotation_gate(G) is the local gate on the support of G whose condensed generator, padded '
+                     'back onto the register, is G itself - so that, by the local-gate contract, its forward IS the rotation by G; '
+                     'bounded: the circuits built from these by diagonalize for all strings, signs, targets, causal on/off (N <= 3/4), '
                      'states, SBRG on commuting (exact) and arbitrary (diagonal form) Hamiltonians')
 
 
